@@ -41,6 +41,7 @@ type Frame struct {
 	rangeIt  map[ssa.Value]*rangeState
 	curBlock *ssa.BasicBlock
 	closures []*Val // closures created in this frame (candidates for calls of function values)
+	calleeOperands map[*ssa.Function]bool
 }
 
 type loopInfo struct {
@@ -192,6 +193,10 @@ func (fr *Frame) val(v ssa.Value) *Val {
 		}
 		x := &Val{T: &Term{name, SV}, Typ: k.Type(), Clo: &Closure{Fn: k}}
 		fr.vals[v] = x
+		// a named function used as a value is a candidate target of later calls of function values
+		if _, isCallee := fr.calleeOperands[k]; !isCallee {
+			fr.closures = append(fr.closures, x)
+		}
 		return x
 	case *ssa.Builtin:
 		return &Val{Typ: k.Type()}
